@@ -1,0 +1,129 @@
+//go:build verif
+
+// Verification export shim (build tag "verif" only; add-only, no behaviour of its own).
+//
+// It re-exports, for an external harness:
+//   - the unexported server interface and runner-factory type, so that mock servers can be
+//     injected through the existing WithRunnerFactory option;
+//   - the two timing fields of Runner (restart delay, readiness deadline);
+//   - a thin wrapper around the entries planner (newEntries / buildPendingEntries /
+//     getPendingActions / commit / setRuntime / clearRuntime / removeEntry, exactly as they
+//     exist) for differential testing.
+//
+// With the tag off this file is not compiled and the package is unchanged.
+package httpcluster
+
+import (
+	"context"
+	"sort"
+	"time"
+
+	"github.com/robbyt/go-supervisor/runnables/httpserver"
+)
+
+// VerifServerRunner is the interface a cluster child must implement (httpServerRunner).
+type VerifServerRunner = httpServerRunner
+
+// VerifRunnerFactory is the type accepted by WithRunnerFactory.
+type VerifRunnerFactory = runnerFactory
+
+// VerifWithDeadlineServerStart sets the readiness deadline used by startServers.
+func VerifWithDeadlineServerStart(d time.Duration) Option {
+	return func(r *Runner) error {
+		r.deadlineServerStart = d
+		return nil
+	}
+}
+
+// VerifTimings returns (restartDelay, deadlineServerStart).
+func (r *Runner) VerifTimings() (time.Duration, time.Duration) {
+	return r.restartDelay, r.deadlineServerStart
+}
+
+// VerifEntry is a flat copy of one map slot of an entries collection.
+type VerifEntry struct {
+	Key       string // key in the servers map
+	ID        string // serverEntry.id
+	Config    *httpserver.Config
+	Runner    VerifServerRunner // nil if no runtime
+	HasCtx    bool
+	HasCancel bool
+	Action    string // "none" | "start" | "stop" | ""
+}
+
+// VerifEntries wraps an entriesManager value.
+type VerifEntries struct{ m entriesManager }
+
+func verifWrap(m entriesManager) *VerifEntries {
+	if m == nil {
+		return nil
+	}
+	return &VerifEntries{m: m}
+}
+
+// VerifEmptyEntries is the initial currentEntries of NewRunner.
+func VerifEmptyEntries() *VerifEntries {
+	return &VerifEntries{m: &entries{servers: make(map[string]*serverEntry)}}
+}
+
+// VerifNewEntries calls newEntries.
+func VerifNewEntries(desired map[string]*httpserver.Config) *VerifEntries {
+	return &VerifEntries{m: newEntries(desired)}
+}
+
+// BuildPending calls buildPendingEntries.
+func (v *VerifEntries) BuildPending(desired *VerifEntries) *VerifEntries {
+	return verifWrap(v.m.buildPendingEntries(desired.m))
+}
+
+// PendingActions calls getPendingActions.
+func (v *VerifEntries) PendingActions() (toStart, toStop []string) {
+	return v.m.getPendingActions()
+}
+
+// Commit calls commit.
+func (v *VerifEntries) Commit() *VerifEntries { return verifWrap(v.m.commit()) }
+
+// SetRuntime calls setRuntime (nil result = nil).
+func (v *VerifEntries) SetRuntime(
+	id string,
+	runner VerifServerRunner,
+	ctx context.Context,
+	cancel context.CancelFunc,
+) *VerifEntries {
+	return verifWrap(v.m.setRuntime(id, runner, ctx, cancel))
+}
+
+// ClearRuntime calls clearRuntime (nil result = nil).
+func (v *VerifEntries) ClearRuntime(id string) *VerifEntries {
+	return verifWrap(v.m.clearRuntime(id))
+}
+
+// RemoveEntry calls removeEntry.
+func (v *VerifEntries) RemoveEntry(id string) *VerifEntries {
+	return verifWrap(v.m.removeEntry(id))
+}
+
+// Count calls count.
+func (v *VerifEntries) Count() int { return v.m.count() }
+
+// Dump lists the slots of the collection sorted by key.
+func (v *VerifEntries) Dump() []VerifEntry {
+	e, ok := v.m.(*entries)
+	if !ok {
+		return nil
+	}
+	out := make([]VerifEntry, 0, len(e.servers))
+	for k, s := range e.servers {
+		if s == nil {
+			out = append(out, VerifEntry{Key: k})
+			continue
+		}
+		out = append(out, VerifEntry{
+			Key: k, ID: s.id, Config: s.config, Runner: s.runner,
+			HasCtx: s.ctx != nil, HasCancel: s.cancel != nil, Action: string(s.action),
+		})
+	}
+	sort.Slice(out, func(i, j int) bool { return out[i].Key < out[j].Key })
+	return out
+}
